@@ -7,6 +7,7 @@ import (
 	"math/rand"
 	"strconv"
 	"strings"
+	"time"
 )
 
 func init() {
@@ -407,6 +408,23 @@ func reportersReplay(e *env) error {
 						break
 					}
 				}
+			}
+		}
+		// ---- csv log under another date format: the export's dates stay ISO, everything else identical ----
+		if idx%4 == 0 {
+			alt := x.log
+			for d := 1; d < len(w.dates); d++ {
+				if t, err := time.Parse("2006/01/02", w.dates[d]); err == nil {
+					alt = strings.ReplaceAll(alt, w.dates[d]+":", t.Format("02.01.2006")+":")
+				}
+			}
+			o1, ok1 := x.run("csv", "log")
+			saved := x.log
+			x.log = alt
+			o2, ok2 := x.run("--date-format", "02.01.2006", "csv", "log")
+			x.log = saved
+			if ok1 && ok2 && o1 != o2 {
+				x.bad("csv-log-rows", "cmd/hranoprovod-cli/internal/csv", fmt.Sprintf("csv log with --date-format 02.01.2006 prints %q; with the default format %q", o2, o1))
 			}
 		}
 		// ---- reg -f <matches everything>: same rows as the csv log, two decimals, tab separated ----
